@@ -337,13 +337,19 @@ class State(execution.State):
             patch: patches.Patch,
             storage: progress.ProgressStorage,
             handlers: Iterable[execution.Handler],
+            keep: Iterable[execution.Handler] = (),
     ) -> None:
         # Purge only our own handlers and their direct & indirect sub-handlers of all levels deep.
         # Ignore other handlers (e.g. handlers of other operators).
-        handler_ids = {handler.id for handler in handlers}
+        # Those to be kept (e.g. re-purposed and going on) stay with their sub-handlers untouched:
+        # the sub-handlers' progress is not in this state and would not be stored again.
+        kept_ids = {handler.id for handler in keep}
+        handler_ids = {handler.id for handler in handlers} - kept_ids
         for handler_id in handler_ids:
             storage.purge(key=handler_id, body=body, patch=patch)
         for handler_id, handler_state in self._states.items():
+            if handler_id in kept_ids:
+                continue
             if handler_id not in handler_ids:
                 storage.purge(key=handler_id, body=body, patch=patch)
             for subref in handler_state.subrefs:
